@@ -19,6 +19,15 @@
 (*                      the relock and a call that lost the race returns.       *)
 (* Shape = "markfirst": endTime is set in the critical section of the check,    *)
 (*                      the task is ended after the unlock (the proposed fix).  *)
+(* User code inside span methods is a window of its own: RecordError calls      *)
+(* err.Error() (mutators in UserMut, MShape), End deferred during a panic       *)
+(* formats the recovered value (enders in Panickers, PShape).  Shapes: "locked" *)
+(* = the user code runs under span.mu (the pinned code), "recheck" = it runs    *)
+(* without the lock and isRecording is checked again under the lock afterwards  *)
+(* (a correct refactoring), "norecheck" = it runs without the lock and nothing  *)
+(* is checked afterwards (named deviations D2 = panic format window, D3 = late  *)
+(* RecordError; D3 is observable only if the snapshot aliases the event queue,  *)
+(* SnapShares, and the queue is at its limit EvLimit).                          *)
 (* Monitor variables (mon) observe API-level facts only (calls, returns, what   *)
 (* a recording processor is handed) and carry the contract of the property.     *)
 EXTENDS Naturals, Sequences, FiniteSets, TLC
@@ -29,7 +38,15 @@ CONSTANTS Enders, Mutators, Children, Readers,
           Shared,       \* subset of Mutators whose parts live in storage the snapshot aliases (attributes)
           ExecTracer,   \* BOOLEAN: span started while runtime/trace was on (executionTracerTaskEnd # nil)
           Shape,        \* "window" | "recheck" | "markfirst"
-          AllowKnown    \* TRUE: admit the known deviation D1 (double End through the unlock window)
+          AllowKnown,   \* TRUE: admit the known deviation D1 (double End through the unlock window)
+          UserMut,      \* subset of Mutators whose call runs user code (RecordError -> err.Error())
+          MShape,       \* "locked" | "recheck" | "norecheck": where that user code runs
+          EvMut,        \* subset of Mutators that append ONE event to the bounded FIFO (AddEvent, RecordError)
+          EvLimit,      \* EventCountLimit (0 = never reached)
+          EvInit,       \* events recorded before the processes start (sequence of names)
+          SnapShares,   \* BOOLEAN: the snapshot aliases the event queue instead of copying it
+          Panickers,    \* subset of Enders whose End runs deferred during a panic (recover branch)
+          PShape        \* "locked" | "recheck" | "norecheck": where the recovered value is formatted
 
 VARIABLES mu,        \* span lock holder: "none" | process
           endTime,   \* "none" (zero) | the ender whose end time is stored
@@ -40,10 +57,11 @@ VARIABLES mu,        \* span lock holder: "none" | process
           eprocs,    \* ender -> processors it still has to call
           rval,      \* reader -> what IsRecording read
           plist,     \* the provider's processor list (read through an atomic pointer)
+          evs,       \* [q, drop]: the span's event FIFO and its dropped counter
           win,       \* enders between a passed recording check and their EMark (history, for D1)
           winOverlap,\* two enders were in `win` at the same time (history, for D1)
           mon
-vars == <<mu, endTime, parts, childCount, pc, esnap, eprocs, rval, plist, win, winOverlap, mon>>
+vars == <<mu, endTime, parts, childCount, pc, esnap, eprocs, rval, plist, evs, win, winOverlap, mon>>
 
 RegSet == {Registrars[i] : i \in 1..Len(Registrars)}
 Procs == Enders \cup Mutators \cup Children \cup Readers \cup RegSet
@@ -52,15 +70,21 @@ ProcSet == {Processors[i] : i \in 1..Len(Processors)}
 Late(g) == LET i == CHOOSE j \in 1..Len(Registrars) : Registrars[j] = g IN "p" \o ToString(Len(Processors) + i)
 LateSet == {Late(g) : g \in RegSet}
 PartsOf(m) == {<<m, 1>>, <<m, 2>>}
-NoSnap == [et |-> "none", copied |-> {}, child |-> 0]
+NoSnap == [et |-> "none", copied |-> {}, child |-> 0, evq |-> <<>>, evdrop |-> 0]
 (* what a processor reads from a snapshot now: copied parts + the aliased storage *)
 View(s) == s.copied \cup {x \in parts : x[1] \in Shared}
+(* events: a copy, or -- aliased and full, so that a later add shifts the array in place -- the live queue *)
+VEv(s) == IF SnapShares /\ EvLimit > 0 /\ Len(s.evq) = EvLimit THEN evs.q ELSE s.evq
+Push(ev, x) == IF EvLimit > 0 /\ Len(ev.q) >= EvLimit THEN [q |-> Append(Tail(ev.q), x), drop |-> ev.drop + 1]
+                                                      ELSE [q |-> Append(ev.q, x), drop |-> ev.drop]
+SeqSet(q) == {q[i] : i \in 1..Len(q)}
 
 Init ==
   /\ mu = "none" /\ endTime = "none" /\ parts = {} /\ childCount = 0
   /\ pc = [x \in Procs |-> "idle"]
   /\ esnap = [e \in Enders |-> NoSnap] /\ eprocs = [e \in Enders |-> <<>>]
   /\ rval = [r \in Readers |-> FALSE] /\ plist = Processors /\ win = {} /\ winOverlap = FALSE
+  /\ evs = [q |-> EvInit, drop |-> 0]
   /\ mon = [endCalled |-> FALSE, endOpen |-> 0, endRet |-> FALSE,
             called |-> {}, mustIn |-> {}, mustOut |-> {},
             childMustIn |-> 0, childEligible |-> 0, rAfter |-> {},
@@ -72,48 +96,63 @@ Lock(x) == mu = "none" /\ mu' = x
 Unlock(x) == mu = x /\ mu' = "none"
 
 (* ------------------------------------------------------------------ enders *)
+AfterCheck == IF ExecTracer /\ Shape \in {"window", "recheck"} THEN "unlockT" ELSE "mark"
 ECall(e) == /\ pc[e] = "idle" /\ Go(e, "lock")
             /\ mon' = [mon EXCEPT !.endCalled = TRUE, !.endOpen = @ + 1]
-            /\ UNCHANGED <<plist, mu, endTime, parts, childCount, esnap, eprocs, rval, win, winOverlap>>
+            /\ UNCHANGED <<evs, plist, mu, endTime, parts, childCount, esnap, eprocs, rval, win, winOverlap>>
 ELock(e) == /\ pc[e] = "lock" /\ Lock(e) /\ Go(e, "check")
-            /\ UNCHANGED <<plist, endTime, parts, childCount, esnap, eprocs, rval, win, winOverlap, mon>>
+            /\ UNCHANGED <<evs, plist, endTime, parts, childCount, esnap, eprocs, rval, win, winOverlap, mon>>
 ECheck(e) == /\ pc[e] = "check"
              /\ IF endTime # "none"
-                  THEN Go(e, "unlockign") /\ UNCHANGED <<plist, win, winOverlap>>
-                  ELSE /\ Go(e, IF ExecTracer /\ Shape \in {"window", "recheck"} THEN "unlockT" ELSE "mark")
+                  THEN Go(e, "unlockign") /\ UNCHANGED <<evs, plist, win, winOverlap>>
+                  ELSE /\ Go(e, IF e \in Panickers THEN (IF PShape = "locked" THEN "pfmt" ELSE "punlock") ELSE AfterCheck)
                        /\ win' = win \cup {e} /\ winOverlap' = (winOverlap \/ win # {})
-             /\ UNCHANGED <<plist, mu, endTime, parts, childCount, esnap, eprocs, rval, mon>>
+             /\ UNCHANGED <<evs, plist, mu, endTime, parts, childCount, esnap, eprocs, rval, mon>>
+(* End deferred during a panic: recover(), describe the recovered value (user code: Error()/String(), stack
+   capture), add an exception event, go on ending the span, re-panic afterwards *)
+EPanicUnlock(e) == /\ pc[e] = "punlock" /\ Unlock(e) /\ Go(e, "pfmt")
+                   /\ UNCHANGED <<evs, plist, endTime, parts, childCount, esnap, eprocs, rval, win, winOverlap, mon>>
+EPanicFormat(e) == /\ pc[e] = "pfmt" /\ Go(e, IF PShape = "locked" THEN "paddev" ELSE "prelock")
+                   /\ UNCHANGED <<evs, plist, mu, endTime, parts, childCount, esnap, eprocs, rval, win, winOverlap, mon>>
+EPanicRelock(e) == /\ pc[e] = "prelock" /\ Lock(e) /\ Go(e, IF PShape = "recheck" THEN "precheck2" ELSE "paddev")
+                   /\ UNCHANGED <<evs, plist, endTime, parts, childCount, esnap, eprocs, rval, win, winOverlap, mon>>
+EPanicRecheck(e) == /\ pc[e] = "precheck2"
+                    /\ IF endTime # "none" THEN (Go(e, "unlockign2") /\ win' = win \ {e})
+                                           ELSE (Go(e, "paddev") /\ UNCHANGED win)
+                    /\ UNCHANGED <<evs, plist, mu, endTime, parts, childCount, esnap, eprocs, rval, winOverlap, mon>>
+EPanicAddEvent(e) == /\ pc[e] = "paddev" /\ evs' = Push(evs, e) /\ Go(e, AfterCheck)
+                     /\ UNCHANGED <<plist, mu, endTime, parts, childCount, esnap, eprocs, rval, win, winOverlap, mon>>
 EUnlockIgnored(e) == /\ pc[e] \in {"unlockign", "unlockign2"} /\ Unlock(e) /\ Go(e, "ret")
-                     /\ UNCHANGED <<plist, endTime, parts, childCount, esnap, eprocs, rval, win, winOverlap, mon>>
+                     /\ UNCHANGED <<evs, plist, endTime, parts, childCount, esnap, eprocs, rval, win, winOverlap, mon>>
 EUnlockForTask(e) == /\ pc[e] = "unlockT" /\ Unlock(e) /\ Go(e, "task")
-                     /\ UNCHANGED <<plist, endTime, parts, childCount, esnap, eprocs, rval, win, winOverlap, mon>>
+                     /\ UNCHANGED <<evs, plist, endTime, parts, childCount, esnap, eprocs, rval, win, winOverlap, mon>>
 ETaskEnd(e) == /\ pc[e] \in {"task", "task2"}
                /\ Go(e, IF pc[e] = "task" THEN "relock" ELSE "procs")
                /\ mon' = [mon EXCEPT !.taskEnds = @ + 1]
-               /\ UNCHANGED <<plist, mu, endTime, parts, childCount, esnap, eprocs, rval, win, winOverlap>>
+               /\ UNCHANGED <<evs, plist, mu, endTime, parts, childCount, esnap, eprocs, rval, win, winOverlap>>
 ERelock(e) == /\ pc[e] = "relock" /\ Lock(e)
               /\ Go(e, IF Shape = "recheck" THEN "recheck" ELSE "mark")     \* "window": no re-check of isRecording
-              /\ UNCHANGED <<plist, endTime, parts, childCount, esnap, eprocs, rval, win, winOverlap, mon>>
+              /\ UNCHANGED <<evs, plist, endTime, parts, childCount, esnap, eprocs, rval, win, winOverlap, mon>>
 ERecheck(e) == /\ pc[e] = "recheck"
                /\ IF endTime # "none" THEN (Go(e, "unlockign2") /\ win' = win \ {e})     \* lost the race: End does nothing
                                       ELSE (Go(e, "mark") /\ UNCHANGED win)
-               /\ UNCHANGED <<plist, mu, endTime, parts, childCount, esnap, eprocs, rval, winOverlap, mon>>
+               /\ UNCHANGED <<evs, plist, mu, endTime, parts, childCount, esnap, eprocs, rval, winOverlap, mon>>
 EMark(e) == /\ pc[e] = "mark" /\ endTime' = e /\ Go(e, "unlock") /\ win' = win \ {e}
-            /\ UNCHANGED <<plist, mu, parts, childCount, esnap, eprocs, rval, winOverlap, mon>>
+            /\ UNCHANGED <<evs, plist, mu, parts, childCount, esnap, eprocs, rval, winOverlap, mon>>
 EUnlock(e) == /\ pc[e] = "unlock" /\ Unlock(e)
               /\ Go(e, IF ExecTracer /\ Shape = "markfirst" THEN "task2" ELSE "procs")
-              /\ UNCHANGED <<plist, endTime, parts, childCount, esnap, eprocs, rval, win, winOverlap, mon>>
+              /\ UNCHANGED <<evs, plist, endTime, parts, childCount, esnap, eprocs, rval, win, winOverlap, mon>>
 EGetProcs(e) == /\ pc[e] = "procs" /\ eprocs' = [eprocs EXCEPT ![e] = plist]
                 /\ Go(e, IF plist = <<>> THEN "ret" ELSE "snaplock")
-                /\ UNCHANGED <<plist, mu, endTime, parts, childCount, esnap, rval, win, winOverlap, mon>>
+                /\ UNCHANGED <<evs, plist, mu, endTime, parts, childCount, esnap, rval, win, winOverlap, mon>>
 ESnapLock(e) == /\ pc[e] = "snaplock" /\ Lock(e) /\ Go(e, "snapcopy")
-                /\ UNCHANGED <<plist, endTime, parts, childCount, esnap, eprocs, rval, win, winOverlap, mon>>
+                /\ UNCHANGED <<evs, plist, endTime, parts, childCount, esnap, eprocs, rval, win, winOverlap, mon>>
 ESnapCopy(e) == /\ pc[e] = "snapcopy" /\ Go(e, "snapunlock")
                 /\ esnap' = [esnap EXCEPT ![e] = [et |-> endTime, copied |-> {x \in parts : x[1] \notin Shared},
-                                                   child |-> childCount]]
-                /\ UNCHANGED <<plist, mu, endTime, parts, childCount, eprocs, rval, win, winOverlap, mon>>
+                                                   child |-> childCount, evq |-> evs.q, evdrop |-> evs.drop]]
+                /\ UNCHANGED <<evs, plist, mu, endTime, parts, childCount, eprocs, rval, win, winOverlap, mon>>
 ESnapUnlock(e) == /\ pc[e] = "snapunlock" /\ Unlock(e) /\ Go(e, "onend")
-                  /\ UNCHANGED <<plist, endTime, parts, childCount, esnap, eprocs, rval, win, winOverlap, mon>>
+                  /\ UNCHANGED <<evs, plist, endTime, parts, childCount, esnap, eprocs, rval, win, winOverlap, mon>>
 (* the processor is handed the snapshot: this is what the contract judges *)
 Torn(v) == \E m \in Mutators : PartsOf(m) \cap v # {} /\ ~(PartsOf(m) \subseteq v)
 Judge(m, p, s) ==
@@ -121,85 +160,98 @@ Judge(m, p, s) ==
      (IF m.onEnd[p] >= 1 THEN {"delivered-twice"} ELSE {})
      \cup (IF m.ets \cup {s.et} # {s.et} THEN {"end-time-differs"} ELSE {})
      \cup (IF Torn(v) THEN {"torn-mutation"} ELSE {})
-     \cup (IF \E x \in m.mustIn : ~(PartsOf(x) \subseteq v) THEN {"mutation-lost"} ELSE {})
-     \cup (IF \E x \in m.mustOut : PartsOf(x) \cap v # {} THEN {"mutation-after-end"} ELSE {})
+     \cup (IF VEv(s) # s.evq THEN {"torn-mutation"} ELSE {})     \* events no longer match the counters copied with them
+     \cup (IF \E x \in m.mustIn \ EvMut : ~(PartsOf(x) \subseteq v) THEN {"mutation-lost"} ELSE {})    \* (events may be evicted)
+     \cup (IF \E x \in m.mustOut : PartsOf(x) \cap v # {} \/ x \in SeqSet(VEv(s)) THEN {"mutation-after-end"} ELSE {})
      \cup (IF s.child < m.childMustIn \/ s.child > m.childEligible THEN {"child-count"} ELSE {})
 EOnEnd(e) == /\ pc[e] = "onend"
              /\ LET p == Head(eprocs[e]) IN
                 mon' = [mon EXCEPT !.onEnd[p] = @ + 1, !.ets = @ \cup {esnap[e].et},
-                                   !.views = @ \cup {[p |-> p, e |-> e, view |-> View(esnap[e])]},
+                                   !.views = @ \cup {[p |-> p, e |-> e, view |-> View(esnap[e]), ev |-> VEv(esnap[e])]},
                                    !.bad = @ \cup Judge(mon, p, esnap[e])]
              /\ eprocs' = [eprocs EXCEPT ![e] = Tail(@)]
              /\ Go(e, IF Len(eprocs[e]) = 1 THEN "ret" ELSE "onend")
-             /\ UNCHANGED <<plist, mu, endTime, parts, childCount, esnap, rval, win, winOverlap>>
+             /\ UNCHANGED <<evs, plist, mu, endTime, parts, childCount, esnap, rval, win, winOverlap>>
 ERet(e) == /\ pc[e] = "ret" /\ Go(e, "done")
            /\ mon' = [mon EXCEPT !.endOpen = @ - 1, !.endRet = TRUE,
                         !.bad = @ \cup (IF mon.endOpen = 1 /\ \E p \in mon.must : mon.onEnd[p] = 0
                                           THEN {"not-delivered"} ELSE {})]
-           /\ UNCHANGED <<plist, mu, endTime, parts, childCount, esnap, eprocs, rval, win, winOverlap>>
+           /\ UNCHANGED <<evs, plist, mu, endTime, parts, childCount, esnap, eprocs, rval, win, winOverlap>>
 
 (* ---------------------------------------------------------------- mutators *)
-MCall(m) == /\ pc[m] = "idle" /\ Go(m, "lock")
+ApplyPc(m) == IF m \in EvMut THEN "applyev" ELSE "apply1"
+MCall(m) == /\ pc[m] = "idle" /\ Go(m, IF m \in UserMut /\ MShape # "locked" THEN "precheck" ELSE "lock")
             /\ mon' = [mon EXCEPT !.called = @ \cup {m}, !.mustOut = IF mon.endRet THEN @ \cup {m} ELSE @]
-            /\ UNCHANGED <<plist, mu, endTime, parts, childCount, esnap, eprocs, rval, win, winOverlap>>
+            /\ UNCHANGED <<evs, plist, mu, endTime, parts, childCount, esnap, eprocs, rval, win, winOverlap>>
 MLock(m) == /\ pc[m] = "lock" /\ Lock(m) /\ Go(m, "check")
-            /\ UNCHANGED <<plist, endTime, parts, childCount, esnap, eprocs, rval, win, winOverlap, mon>>
-MCheck(m) == /\ pc[m] = "check" /\ Go(m, IF endTime = "none" THEN "apply1" ELSE "unlock")
-             /\ UNCHANGED <<plist, mu, endTime, parts, childCount, esnap, eprocs, rval, win, winOverlap, mon>>
+            /\ UNCHANGED <<evs, plist, endTime, parts, childCount, esnap, eprocs, rval, win, winOverlap, mon>>
+(* unlocked shapes: `if !s.IsRecording() { return }` (takes and releases the lock), then the user code, then the lock *)
+MPreCheck(m) == /\ pc[m] = "precheck" /\ mu = "none" /\ Go(m, IF endTime = "none" THEN "user" ELSE "ret")
+                /\ UNCHANGED <<evs, plist, mu, endTime, parts, childCount, esnap, eprocs, rval, win, winOverlap, mon>>
+MUser(m) == /\ pc[m] = "user" /\ Go(m, IF MShape = "locked" THEN ApplyPc(m) ELSE "lock")      \* err.Error()
+            /\ UNCHANGED <<evs, plist, mu, endTime, parts, childCount, esnap, eprocs, rval, win, winOverlap, mon>>
+MCheck(m) == /\ pc[m] = "check"
+             /\ Go(m, IF m \in UserMut /\ MShape = "norecheck" THEN ApplyPc(m)       \* D3: no check under the lock
+                       ELSE IF endTime # "none" THEN "unlock"
+                       ELSE IF m \in UserMut /\ MShape = "locked" THEN "user" ELSE ApplyPc(m))
+             /\ UNCHANGED <<evs, plist, mu, endTime, parts, childCount, esnap, eprocs, rval, win, winOverlap, mon>>
 MApply(m) == /\ pc[m] \in {"apply1", "apply2"}
              /\ parts' = parts \cup {<<m, IF pc[m] = "apply1" THEN 1 ELSE 2>>}
              /\ Go(m, IF pc[m] = "apply1" THEN "apply2" ELSE "unlock")
-             /\ UNCHANGED <<plist, mu, endTime, childCount, esnap, eprocs, rval, win, winOverlap, mon>>
+             /\ UNCHANGED <<evs, plist, mu, endTime, childCount, esnap, eprocs, rval, win, winOverlap, mon>>
+MApplyEv(m) == /\ pc[m] = "applyev" /\ evs' = Push(evs, m) /\ Go(m, "unlock")
+               /\ UNCHANGED <<plist, mu, endTime, parts, childCount, esnap, eprocs, rval, win, winOverlap, mon>>
 MUnlock(m) == /\ pc[m] = "unlock" /\ Unlock(m) /\ Go(m, "ret")
-              /\ UNCHANGED <<plist, endTime, parts, childCount, esnap, eprocs, rval, win, winOverlap, mon>>
+              /\ UNCHANGED <<evs, plist, endTime, parts, childCount, esnap, eprocs, rval, win, winOverlap, mon>>
 MRet(m) == /\ pc[m] = "ret" /\ Go(m, "done")
            /\ mon' = [mon EXCEPT !.mustIn = IF mon.endCalled THEN @ ELSE @ \cup {m}]
-           /\ UNCHANGED <<plist, mu, endTime, parts, childCount, esnap, eprocs, rval, win, winOverlap>>
+           /\ UNCHANGED <<evs, plist, mu, endTime, parts, childCount, esnap, eprocs, rval, win, winOverlap>>
 
 (* ---------------------------------------------------------- child starters *)
 CCall(c) == /\ pc[c] = "idle" /\ Go(c, "lock")
             /\ mon' = [mon EXCEPT !.childEligible = IF mon.endRet THEN @ ELSE @ + 1]
-            /\ UNCHANGED <<plist, mu, endTime, parts, childCount, esnap, eprocs, rval, win, winOverlap>>
+            /\ UNCHANGED <<evs, plist, mu, endTime, parts, childCount, esnap, eprocs, rval, win, winOverlap>>
 CLock(c) == /\ pc[c] = "lock" /\ Lock(c) /\ Go(c, "incr")
-            /\ UNCHANGED <<plist, endTime, parts, childCount, esnap, eprocs, rval, win, winOverlap, mon>>
+            /\ UNCHANGED <<evs, plist, endTime, parts, childCount, esnap, eprocs, rval, win, winOverlap, mon>>
 CIncr(c) == /\ pc[c] = "incr" /\ Go(c, "unlock")
             /\ childCount' = IF endTime = "none" THEN childCount + 1 ELSE childCount
-            /\ UNCHANGED <<plist, mu, endTime, parts, esnap, eprocs, rval, win, winOverlap, mon>>
+            /\ UNCHANGED <<evs, plist, mu, endTime, parts, esnap, eprocs, rval, win, winOverlap, mon>>
 CUnlock(c) == /\ pc[c] = "unlock" /\ Unlock(c) /\ Go(c, "ret")
-              /\ UNCHANGED <<plist, endTime, parts, childCount, esnap, eprocs, rval, win, winOverlap, mon>>
+              /\ UNCHANGED <<evs, plist, endTime, parts, childCount, esnap, eprocs, rval, win, winOverlap, mon>>
 CRet(c) == /\ pc[c] = "ret" /\ Go(c, "done")
            /\ mon' = [mon EXCEPT !.childMustIn = IF mon.endCalled THEN @ ELSE @ + 1]
-           /\ UNCHANGED <<plist, mu, endTime, parts, childCount, esnap, eprocs, rval, win, winOverlap>>
+           /\ UNCHANGED <<evs, plist, mu, endTime, parts, childCount, esnap, eprocs, rval, win, winOverlap>>
 
 (* ----------------------------------------------------------------- readers *)
 RCall(r) == /\ pc[r] = "idle" /\ Go(r, "lock")
             /\ mon' = [mon EXCEPT !.rAfter = IF mon.endRet THEN @ \cup {r} ELSE @]
-            /\ UNCHANGED <<plist, mu, endTime, parts, childCount, esnap, eprocs, rval, win, winOverlap>>
+            /\ UNCHANGED <<evs, plist, mu, endTime, parts, childCount, esnap, eprocs, rval, win, winOverlap>>
 RLock(r) == /\ pc[r] = "lock" /\ Lock(r) /\ Go(r, "read")
-            /\ UNCHANGED <<plist, endTime, parts, childCount, esnap, eprocs, rval, win, winOverlap, mon>>
+            /\ UNCHANGED <<evs, plist, endTime, parts, childCount, esnap, eprocs, rval, win, winOverlap, mon>>
 RRead(r) == /\ pc[r] = "read" /\ rval' = [rval EXCEPT ![r] = (endTime = "none")] /\ Go(r, "unlock")
-            /\ UNCHANGED <<plist, mu, endTime, parts, childCount, esnap, eprocs, win, winOverlap, mon>>
+            /\ UNCHANGED <<evs, plist, mu, endTime, parts, childCount, esnap, eprocs, win, winOverlap, mon>>
 RUnlock(r) == /\ pc[r] = "unlock" /\ Unlock(r) /\ Go(r, "ret")
-              /\ UNCHANGED <<plist, endTime, parts, childCount, esnap, eprocs, rval, win, winOverlap, mon>>
+              /\ UNCHANGED <<evs, plist, endTime, parts, childCount, esnap, eprocs, rval, win, winOverlap, mon>>
 RRet(r) == /\ pc[r] = "ret" /\ Go(r, "done")
            /\ mon' = [mon EXCEPT !.bad = @ \cup (IF r \in mon.rAfter /\ rval[r] THEN {"recording-after-end"} ELSE {})
                                            \cup (IF ~mon.endCalled /\ ~rval[r] THEN {"not-recording-before-end"} ELSE {})]
-           /\ UNCHANGED <<plist, mu, endTime, parts, childCount, esnap, eprocs, rval, win, winOverlap>>
+           /\ UNCHANGED <<evs, plist, mu, endTime, parts, childCount, esnap, eprocs, rval, win, winOverlap>>
 
 (* -------------------------------------------------------------- registrars *)
 (* TracerProvider.RegisterSpanProcessor: copy the list, append, store the pointer (one linearization point) *)
 GCall(g) == /\ pc[g] = "idle" /\ Go(g, "store")
-            /\ UNCHANGED <<mu, endTime, parts, childCount, esnap, eprocs, rval, plist, win, winOverlap, mon>>
+            /\ UNCHANGED <<evs, mu, endTime, parts, childCount, esnap, eprocs, rval, plist, win, winOverlap, mon>>
 GStore(g) == /\ pc[g] = "store" /\ plist' = Append(plist, Late(g)) /\ Go(g, "ret")
-             /\ UNCHANGED <<mu, endTime, parts, childCount, esnap, eprocs, rval, win, winOverlap, mon>>
+             /\ UNCHANGED <<evs, mu, endTime, parts, childCount, esnap, eprocs, rval, win, winOverlap, mon>>
 GRet(g) == /\ pc[g] = "ret" /\ Go(g, "done")
            /\ mon' = [mon EXCEPT !.must = IF mon.endCalled THEN @ ELSE @ \cup {Late(g)}]
-           /\ UNCHANGED <<mu, endTime, parts, childCount, esnap, eprocs, rval, plist, win, winOverlap>>
+           /\ UNCHANGED <<evs, mu, endTime, parts, childCount, esnap, eprocs, rval, plist, win, winOverlap>>
 
 EnderNext(e) == \/ ECall(e) \/ ELock(e) \/ ECheck(e) \/ EUnlockIgnored(e) \/ EUnlockForTask(e) \/ ETaskEnd(e)
+                \/ EPanicUnlock(e) \/ EPanicFormat(e) \/ EPanicRelock(e) \/ EPanicRecheck(e) \/ EPanicAddEvent(e)
                 \/ ERelock(e) \/ ERecheck(e) \/ EMark(e) \/ EUnlock(e) \/ EGetProcs(e) \/ ESnapLock(e) \/ ESnapCopy(e)
                 \/ ESnapUnlock(e) \/ EOnEnd(e) \/ ERet(e)
-MutNext(m) == MCall(m) \/ MLock(m) \/ MCheck(m) \/ MApply(m) \/ MUnlock(m) \/ MRet(m)
+MutNext(m) == MCall(m) \/ MPreCheck(m) \/ MUser(m) \/ MLock(m) \/ MCheck(m) \/ MApply(m) \/ MApplyEv(m) \/ MUnlock(m) \/ MRet(m)
 ChildNext(c) == CCall(c) \/ CLock(c) \/ CIncr(c) \/ CUnlock(c) \/ CRet(c)
 ReadNext(r) == RCall(r) \/ RLock(r) \/ RRead(r) \/ RUnlock(r) \/ RRet(r)
 RegNext(g) == GCall(g) \/ GStore(g) \/ GRet(g)
@@ -232,9 +284,12 @@ Contract == mon.bad \subseteq Known
 OnEndAtMostOnce == (~winOverlap) => \A p \in ProcSet \cup LateSet : mon.onEnd[p] <= 1
 TaskEndedOnce == (~winOverlap) => mon.taskEnds <= 1
 (* what a processor was handed never changes afterwards *)
-SnapshotStable == \A d \in mon.views : View(esnap[d.e]) = d.view
+SnapshotStable == \A d \in mon.views : View(esnap[d.e]) = d.view /\ VEv(esnap[d.e]) = d.ev
 MutexOK == /\ mu \in Procs \cup {"none"}
-           /\ \A x \in Procs : (mu = x) <=> (pc[x] \in {"check", "unlockign", "unlockign2", "recheck", "unlockT", "mark", "unlock", "snapcopy",
+           /\ \A x \in Procs : (mu = x) <=> (pc[x] \in (IF PShape = "locked" /\ x \in Enders THEN {"pfmt"} ELSE {})
+                                                        \cup (IF MShape = "locked" /\ x \in Mutators THEN {"user"} ELSE {})
+                                                        \cup {"punlock", "paddev", "precheck2", "applyev"}
+                                                        \cup {"check", "unlockign", "unlockign2", "recheck", "unlockT", "mark", "unlock", "snapcopy",
                                                          "snapunlock", "apply1", "apply2", "incr", "read"})
 (* once some End has returned the span is ended for good *)
 EndedForGood == mon.endRet => endTime # "none"
